@@ -233,11 +233,12 @@ def finite_discharge(crate, owner, body_names, construct):
     import itertools
     for bn in body_names or [owner]:
         b = crate.bodies.get(bn)
+        if (b is None or "hir" not in b) and "{closure" in bn:
+            b = crate.bodies.get(bn.split("::{closure")[0])      # a closure's expressions are in its parent's HIR
         if b is None or "hir" not in b:
             return False, "no HIR for %s" % bn
-        if "{closure" in bn:
-            return False, "site inside a closure"
-        doms = [_domain(crate, p_.get("ty")) for p_ in b.get("params", [])]
+        in_closure = "{closure" in bn
+        doms = [_domain(crate, p_.get("ty")) for p_ in b.get("params", [])] if not in_closure else [None]
         size = 1
         for d in doms:
             size *= len(d) if d is not None else 10 ** 9
@@ -265,6 +266,18 @@ def finite_discharge(crate, owner, body_names, construct):
         if not exprs:
             return False, "no matching expression found in %s" % bn
         total = 0
+        if kind in ("Overflow(Shl)", "Overflow(Shr)"):
+            # a shift only fails when the amount is >= the width: a literal amount below the width of the shifted type
+            # is safe whatever the shifted value is
+            def _lit_amount_ok(ex):
+                r_ = ex.get("r") or {}
+                while r_.get("k") in ("Cast", "AddrOf"):
+                    r_ = r_["e"]
+                t_ = ceval.int_ty(ex.get("ty")) or ceval.int_ty((ex.get("l") or {}).get("ty"))
+                return r_.get("k") == "Lit" and isinstance(r_.get("v"), int) and t_ is not None and 0 <= r_["v"] < t_[1]
+            if all(_lit_amount_ok(ex) for ex in exprs):
+                why = "%d shift(s) in %s by a literal amount below the operand width" % (len(exprs), bn)
+                continue
         for ex in exprs:
             if ex["k"] == "AssignOp":
                 return False, "compound assignment"
